@@ -94,74 +94,64 @@ def r2_copy_completeness(R) -> None:
         ctor = new.ast.value
         # constructor arguments must be deep copies
         for a in list(ctor.args) + [k.value for k in ctor.keywords]:
-            ok = is_call(a, 'copy.deepcopy') or (isinstance(a, ast.DictComp) and is_call(a.key, 'copy.deepcopy') and is_call(a.value, 'copy.deepcopy'))
+            a2 = f.as_dictcomp(new.id, a) or f.expand(new.id, a)
+            ok = is_call(a2, 'copy.deepcopy') or (isinstance(a2, ast.DictComp) and is_call(a2.key, 'copy.deepcopy') and is_call(a2.value, 'copy.deepcopy'))
             R.check(ok, q, 'ctor-arg:' + text(a)[:50], 'constructor arguments of the copy are deep copies',
-                    f'`{text(a)[:60]}` is passed to the new object by reference', where=f.where(new))
+                    f'`{text(a2)[:60]}` is passed to the new object by reference', where=f.where(new))
+        # the new object's __dict__ is filled either by `.update(<mapping>)` or by stores in a loop: both are read as
+        # the equivalent dict comprehension
         ups = [n for n in f.cfg.nodes if n.kind == 'stmt' and n.ast is not None and any(method_call(x, 'update') and text(x.func.value) == f'{obj}.__dict__' for x in ast.walk(n.ast))]
-        # loop form: for k, v in self.__dict__.items(): copied.__dict__[k] = copy.deepcopy(v)
         loop_stores = [n for n in f.cfg.nodes if n.kind == 'stmt' and isinstance(n.ast, ast.Assign) and isinstance(n.ast.targets[0], ast.Subscript)
                        and text(n.ast.targets[0].value) == f'{obj}.__dict__' and n.loops]
-        if not ups and loop_stores:
-            for n in loop_stores:
-                lp = f.cfg.nodes[n.loops[-1]]
-                kv = [x.id for x in ast.walk(lp.ast.target) if isinstance(x, ast.Name)]
-                okl = text(lp.ast.iter) == 'self.__dict__.items()' and len(kv) == 2 and text(n.ast.targets[0].slice) == kv[0] \
-                    and is_call(n.ast.value, 'copy.deepcopy') and text(n.ast.value.args[0]) == kv[1]
-                R.check(okl, q, 'deepcopy-all:' + text(n.ast)[:70], 'every entry of __dict__ is deep-copied into the copy',
-                        f'`{text(n.ast)[:80]}` does not deep-copy the entry (a shallow `.copy()` shares the elements of object arrays such as per-period Trace objects)',
-                        where=f.where(n))
-            # exclusions in the loop: exact key tests only, and every excluded key handed to the constructor
-            passed = {k.arg for k in ctor.keywords if k.arg}
-            for t in f.tests():
-                if not t.loops or 'k' not in {x.id for x in ast.walk(t.ast) if isinstance(x, ast.Name)}:
-                    continue
-                tt = t.ast
-                keys = None
-                if isinstance(tt, ast.Compare) and len(tt.ops) == 1:
-                    c0 = tt.comparators[0]
-                    if isinstance(tt.ops[0], (ast.In, ast.NotIn)) and isinstance(c0, (ast.List, ast.Tuple, ast.Set)):
-                        keys = [e.value for e in c0.elts if isinstance(e, ast.Constant)]
-                    elif isinstance(tt.ops[0], (ast.Eq, ast.NotEq)) and isinstance(c0, ast.Constant):
-                        keys = [c0.value]
-                    elif isinstance(tt.ops[0], (ast.In, ast.NotIn)) and isinstance(c0, ast.Constant) and isinstance(c0.value, str):
-                        R.violation(q, 'excluded-key-substring:' + text(tt), f'`{text(tt)}` tests membership in a *string* (a substring test): every attribute whose name is '
-                                    f'a substring of {c0.value!r} is silently left out of the copy', where=f.where(t))
-                        continue
-                if keys is None:
-                    raise Unsupported(f'{q}: key test `{text(tt)}` in the copy loop not modelled')
-                for e in keys:
-                    R.check(e in passed, q, f'excluded-key:{e}', f'the excluded entry `{e}` is handed to the constructor (deep-copied)',
-                            f'`{e}` is excluded from the deep copy of __dict__ and not passed to the constructor', where=f.where(t))
-            rets = f.returns()
-            R.check(len(rets) == 1 and text(rets[0].ast.value) == obj, q, 'returns-copy', 'the populated copy is returned', 'copy() does not return the new object', where=f.fi.where)
+        fills = []  # (node, DictComp)
+        for n in ups:
+            up = [x for x in ast.walk(n.ast) if method_call(x, 'update')][0]
+            dc = f.as_dictcomp(n.id, up.args[0]) if up.args else None
+            if dc is None:
+                raise Unsupported(f'{q}: update argument `{text(up.args[0])[:40] if up.args else ""}` is not a dict comprehension or a dict filled by one loop')
+            fills.append((n, dc))
+        for n in loop_stores:
+            dc = f.loop_store_comp(n)
+            if dc is None:
+                raise Unsupported(f'{q}: `{text(n.ast)[:50]}` is not a store in a for loop')
+            fills.append((n, dc))
+        if not fills:
+            R.require(q, 0, f'{obj}.__dict__.update({{k: copy.deepcopy(v) ...}})', fi=f.fi, pred=lambda x: method_call(x, 'update'))
             continue
-        if not R.require(q, len(ups), f'{obj}.__dict__.update({{k: copy.deepcopy(v) ...}})', fi=f.fi, pred=lambda x: method_call(x, 'update')):
-            continue
-        up = [x for x in ast.walk(ups[0].ast) if method_call(x, 'update')][0]
-        dc = up.args[0] if up.args else None
-        if not isinstance(dc, ast.DictComp):
-            raise Unsupported(f'{q}: update argument is not a dict comprehension')
-        g = dc.generators[0]
-        kv = [x.id for x in ast.walk(g.target) if isinstance(x, ast.Name)]
-        ok = text(g.iter) == 'self.__dict__.items()' and len(kv) == 2 and text(dc.key) == kv[0] and is_call(dc.value, 'copy.deepcopy') \
-            and text(dc.value.args[0]) == kv[1]
-        R.check(ok, q, 'deepcopy-all:' + text(dc)[:80], 'every entry of __dict__ is deep-copied into the copy',
-                f'`{text(dc)[:90]}` stores an entry by reference (no copy.deepcopy of the value)', where=f.where(ups[0]))
-        # exclusions must be covered by the constructor
-        excluded: List[str] = []
-        for c in g.ifs:
-            if isinstance(c, ast.Compare) and isinstance(c.ops[0], ast.NotIn) and isinstance(c.comparators[0], (ast.List, ast.Tuple, ast.Set)):
-                excluded += [e.value for e in c.comparators[0].elts if isinstance(e, ast.Constant)]
-            elif isinstance(c, ast.Compare) and isinstance(c.ops[0], ast.NotEq) and isinstance(c.comparators[0], ast.Constant):
-                excluded.append(c.comparators[0].value)
-            else:
-                raise Unsupported(f'{q}: filter `{text(c)}` in the copy comprehension not modelled')
+        from fsa.match import nnf_atoms
         passed = {k.arg for k in ctor.keywords if k.arg}
-        for e in excluded:
-            R.check(e in passed, q, f'excluded-key:{e}', f'the excluded entry `{e}` is handed to the constructor (deep-copied)',
-                    f'`{e}` is excluded from the deep copy of __dict__ and not passed to the constructor: the copy would keep the constructor default', where=f.where(ups[0]))
+        for (n, dc) in fills:
+            g = dc.generators[0]
+            kv = [x.id for x in ast.walk(g.target) if isinstance(x, ast.Name)]
+            ok = len(dc.generators) == 1 and text(g.iter) == 'self.__dict__.items()' and len(kv) == 2 and text(dc.key) == kv[0] and is_call(dc.value, 'copy.deepcopy') \
+                and text(dc.value.args[0]) == kv[1]
+            R.check(ok, q, 'deepcopy-all:' + text(dc)[:80], 'every entry of __dict__ is deep-copied into the copy',
+                    f'`{text(dc)[:90]}` stores an entry by reference (no copy.deepcopy of the value; a shallow `.copy()` shares the elements of object arrays such as '
+                    f'per-period Trace objects)', where=f.where(n))
+            # exclusions: exact key tests only, and every excluded key handed to the constructor
+            for c in g.ifs:
+                for (at, truth) in nnf_atoms(c, True):
+                    keys = None
+                    if isinstance(at, ast.Compare) and len(at.ops) == 1 and kv and text(at.left) == kv[0] and not truth:
+                        c0 = at.comparators[0]
+                        if isinstance(at.ops[0], ast.In) and isinstance(c0, (ast.List, ast.Tuple, ast.Set)) and all(isinstance(e, ast.Constant) for e in c0.elts):
+                            keys = [e.value for e in c0.elts]
+                        elif isinstance(at.ops[0], ast.Eq) and isinstance(c0, ast.Constant):
+                            keys = [c0.value]
+                        elif isinstance(at.ops[0], ast.In) and isinstance(c0, ast.Constant) and isinstance(c0.value, str):
+                            R.violation(q, 'excluded-key-substring:' + text(at), f'`{text(at)}` tests membership in a *string* (a substring test): every attribute whose name is '
+                                        f'a substring of {c0.value!r} is silently left out of the copy', where=f.where(n))
+                            continue
+                    if keys is None:
+                        raise Unsupported(f'{q}: filter `{text(c)}` in the copy of __dict__ not modelled')
+                    for e in keys:
+                        R.check(e in passed, q, f'excluded-key:{e}', f'the excluded entry `{e}` is handed to the constructor (deep-copied)',
+                                f'`{e}` is excluded from the deep copy of __dict__ and not passed to the constructor: the copy would keep the constructor default',
+                                where=f.where(n))
         rets = f.returns()
-        R.check(len(rets) == 1 and text(rets[0].ast.value) == obj and ups[0].id in f.dom[rets[0].id], q, 'returns-copy', 'the populated copy is returned',
+        last = fills[-1][0]
+        anchor = f.cfg.nodes[last.loops[0]] if last.loops else last
+        R.check(len(rets) == 1 and text(rets[0].ast.value) == obj and anchor.id in f.dom[rets[0].id], q, 'returns-copy', 'the populated copy is returned',
                 'copy() does not return the populated new object', where=f.fi.where)
 
 
